@@ -7,6 +7,7 @@ Property theorems only; helper lemmas are in `Proofs/Framing.lean`.
 import DosModel.Proofs.Framing
 import DosModel.Proofs.FramingInterleave
 import DosModel.Gen.P2PConsts
+import DosModel.Gen.P2PFraming
 
 namespace Dos.Props.C15
 open Dos Dos.Framing
@@ -14,6 +15,28 @@ open Dos Dos.Framing
 /-- regenerated fact: the code's limit is 1 MiB and its header is 4 bytes -/
 theorem c15_limit_is_1MiB : Gen.msgSizeLimit = 2 ^ 20 ∧ Gen.p2pHeaderSize = Framing.headerSize := by
   decide
+
+/-- regenerated fact: the statements of `readFrom` / `writeTo` that `Model/Framing.lean` transcribes
+(what each loop tests, the offset each `conn.Read` / `conn.Write` slices from and how it advances,
+locally allocated buffers, the size check — which returns — BEFORE the payload-sized `make`) are
+what the model assumes, and neither function touches a package-level variable (a reader's state is
+its own: the hypothesis of `interleaving_independent`). A change to any of them must be re-modelled. -/
+theorem c15_code_shape :
+    Gen.P2PFraming.readFrom = [
+      "0 header := make([]byte, headerSize)",
+      "2 for totalBytesRead < headerSize && err == nil { conn.Read(header[totalBytesRead:]) ; totalBytesRead += bytesRead }",
+      "3 size := binary.BigEndian.Uint32(header)",
+      "5 if size > msgSizeLimit || size <= 0 returns=true",
+      "6 buffer = make([]byte, size)",
+      "8 for totalContentBytesRead < int(size) && err == nil { conn.Read(buffer[totalContentBytesRead:]) ; totalContentBytesRead += contentBytesRead }"] ∧
+    Gen.P2PFraming.writeTo = [
+      "0 prefix := make([]byte, headerSize)",
+      "3 if size > msgSizeLimit returns=true",
+      "4 binary.BigEndian.PutUint32(prefix, uint32(size))",
+      "5 bytes = append(prefix, bytes...)",
+      "6 for totalBytesWrtie < len(bytes) && err == nil { conn.Write(bytes[totalBytesWrtie:]) ; totalBytesWrtie += bytesWrite }"] ∧
+    Gen.P2PFraming.packageLevelVarsUsed = [] :=
+  ⟨rfl, rfl, rfl⟩
 
 /-- **1. round trip under every chunking, no bleed.**  For every limit `L < 2^32`, payload of
 1..L bytes, every trailing data `rest` and EVERY way `cs` of cutting the byte stream
